@@ -32,7 +32,6 @@ QUIRK_SIGS = {
     "leak": "C04/child-toplevel-loop/blocks-rendered-in-place",
     "lazy_required": "C04/required-unreached/no-error",
 }
-QUIRK_SETS = (("leak",), ("lazy_required",), ("leak", "lazy_required"))
 
 _TAG = re.compile(r"<([abc][0-9A])")
 
@@ -56,19 +55,34 @@ def _script(case):
     )
 
 
-def classify(case, got, exp):
-    """signatures for a mismatch (narrow: names the documented rule that is broken)."""
-    for qs in QUIRK_SETS:
-        if gen_inh.expected(case, qs) == got:
-            return [QUIRK_SIGS[q] for q in qs]
+def _generic(case, got, exp):
     if isinstance(got, tuple) and isinstance(exp, tuple):
-        return [f"C04/exception/{got[1]}-instead-of-{exp[1]}"]
+        return f"C04/exception/{got[1]}-instead-of-{exp[1]}"
     if isinstance(got, tuple):
-        return [f"C04/unexpected-exception/{got[1]}"]
+        return f"C04/unexpected-exception/{got[1]}"
     if isinstance(exp, tuple):
-        return [f"C04/missing-exception/{exp[1]}"]
+        return f"C04/missing-exception/{exp[1]}"
     forms = "+".join(sorted({lv[0] for lv in case[1] if lv[0]})) or "root"
-    return [f"C04/output/{forms}"]
+    return f"C04/output/{forms}"
+
+
+def classify(case, got, exp):
+    """signatures for a mismatch.  The two named deviations are recognised narrowly:
+    `required-unreached` structurally (gen_inh.required_unreached: the only failure R-inh sees in the
+    case is a never-reached, never-overridden required block) and only when no error was raised;
+    `child-toplevel-loop` only when the output is exactly what rendering the loop-wrapped blocks of
+    extending templates in place would give.  Anything else gets a generic signature."""
+    sigs = []
+    quirks = ()
+    if gen_inh.required_unreached(case) and not isinstance(got, tuple):
+        sigs.append(QUIRK_SIGS["lazy_required"])
+        quirks = ("lazy_required",)
+        exp = gen_inh.expected(case, quirks)
+        if got == exp:
+            return sigs
+    if gen_inh.expected(case, quirks + ("leak",)) == got:
+        return sigs + [QUIRK_SIGS["leak"]]
+    return sigs + [_generic(case, got, exp)]
 
 
 def shard(arg) -> core.Part:
